@@ -178,6 +178,11 @@ func (e *Exec) checkLockDeclared(st *State, instr ssa.Instruction, l Val) {
 		if err == nil && lv.Sub != nil && lv.Sub.Owner == l.Sub.Owner && lv.Sub.Path == l.Sub.Path {
 			alts = append(alts, tEq(lv.Sub.Obj, l.Sub.Obj))
 		}
+		if err != nil {
+			// e.g. a local the clause names has been renamed: without it the
+			// comparison below cannot succeed, which says nothing about the code
+			st.note("locks clause entry %s cannot be evaluated at %s", exprString(le), e.callAnchor(st.top(), instr))
+		}
 	}
 	e.oblige(st, "locks-declared", l.Sub.Owner+"."+l.Sub.Path+"@"+e.callAnchor(st.top(), instr), nil,
 		"monitor "+l.Sub.Owner+"."+l.Sub.Path+" entered here is announced by the function's locks clause", tOr(alts...), instr.Pos())
